@@ -444,6 +444,9 @@ impl BytecodeInterpreter {
             } => {
                 self.vm.begin_function(name);
 
+                // Register the name first: the body may refer to the function itself as a value.
+                self.functions.insert(name.to_compact_string(), false);
+
                 self.locals.push(vec![]);
 
                 let current_depth = self.current_depth();
@@ -464,8 +467,6 @@ impl BytecodeInterpreter {
                 self.locals.pop();
 
                 self.vm.end_function();
-
-                self.functions.insert(name.to_compact_string(), false);
             }
             Statement::DefineFunction {
                 function_name: name,
